@@ -32,6 +32,10 @@ class _Summ:
 
     def key_kinds(self, e: ast.AST, fn: ast.FunctionDef, env: Dict[str, str]) -> List[Tuple[str, str]]:
         """[(kind, owner)] for one key expression; owner: an operation name, or 'dag'"""
+        from ..core import deref
+        if isinstance(e, ast.Name) and e.id not in env:
+            e = deref(fn, e)      # a key that was given a name first (`key = op.parse_q_reg_types()`) is the expression it names
+
         def owner_of(x: ast.AST) -> str:
             if _is_node_op(x):
                 return "dag"
